@@ -50,7 +50,9 @@ class Categorical(ImporterDefinition):
         """
         Create categorical importer definition.
         """
-        self._field_size = max([len(k) for k in categories.keys()])
+        # at least one byte per row: a key table whose keys are all empty (e.g. {'': 0} with free text) would
+        # otherwise ask the reader for a zero-byte value buffer, which can never be grown by doubling
+        self._field_size = max([len(k) for k in categories.keys()] + [1])
 
         self._importer = FIELD_MAPPING_TO_IMPORTER['categorical'](categories, value_type, allow_freetext)
 
